@@ -1,3 +1,3 @@
 """Importing this package registers every rule."""
 
-from . import algebra, backend, cli, descriptor, determinism, formatter, genblocks, genintegral, genir, gentables, jit, kernel, mtanalyse, naming, passes, perm, pipeline, robust, smallfuncs, tabvalues, factdriver, aliasing, analysisinterp, exprpartition, jitflow, scalarize, genkernel, geomaccess  # noqa: F401
+from . import algebra, backend, cli, descriptor, determinism, formatter, genblocks, genintegral, genir, gentables, jit, kernel, mtanalyse, naming, passes, perm, pipeline, robust, smallfuncs, tabvalues, factdriver, aliasing, analysisinterp, exprpartition, jitflow, scalarize, genkernel, geomaccess, sumfact  # noqa: F401
